@@ -622,3 +622,55 @@ Theorem site_detrender_update_refit :
 Proof.
   intros. rewrite bridge_detrender_update. apply site_refit_on_update_equals_fresh_fit.
 Qed.
+
+(* ================================================================================================
+   _StatsModelsAdapter._predict (base of ExponentialSmoothing, AutoETS, ThetaForecaster), regenerated
+   from sktime/forecasting/base/adapters/_statsmodels.py by translator/smadapter_c10.py (Section
+   StatsModels of Site.v): the forecasts are the wrapped model's values at the positions
+   cutoff + h - (first remembered time stamp), labelled cutoff + h.  They are positioned by the
+   forecaster's CUTOFF - after update(update_params=False) and after update_predict, where the
+   cutoff is not the end of the data the wrapped model was last fitted on, too. *)
+Require Import SkV.Lib.ZRange SkV.C10.SmLib.
+
+Lemma lookup_labelled (f : Z -> Q) i0 : forall l p,
+  In p l -> lookup (i0 + p) (map (fun q => (i0 + q, f q)) l) = Some (f p).
+Proof.
+  induction l as [|q l IH]; intros p H; [destruct H|].
+  cbn [map lookup]. destruct (i0 + p =? i0 + q) eqn:E.
+  - assert (p = q) by lia. subst. reflexivity.
+  - destruct H as [<-|H]; [lia|]. apply IH. exact H.
+Qed.
+
+Lemma sorted_lt_map_shift k j : forall l, sorted_lt l -> sorted_lt (map (fun h => k + h - j) l).
+Proof.
+  induction l as [|a [|b t] IH]; intros H; cbn [map]; try exact I.
+  cbn in H. destruct H as [Hab Ht]. split; [lia|]. apply IH. exact Ht.
+Qed.
+
+Section StatsModels.
+  Variable S : Type.
+  Variable get_y : S -> series.
+  Variable get_cutoff : S -> Z.
+  Variable get_sm_model : S -> sm_results.
+
+  Theorem bridge_sm_predict s fh :
+    sorted_lt fh ->
+    snd (get_sm_model s) = zfirst (times (get_y s)) ->
+    gen_sm_predict S get_y get_cutoff get_sm_model s fh =
+    (s, BPred (map (fun h => (get_cutoff s + h,
+                             fst (get_sm_model s) (get_cutoff s + h - zfirst (times (get_y s))))) fh)).
+  Proof.
+    intros Hs Hi. unfold gen_sm_predict, loc_select, sm_predict. cbv zeta.
+    f_equal. f_equal. rewrite map_map. apply map_ext_in. intros h Hin. f_equal.
+    set (c := get_cutoff s) in *. set (i0 := zfirst (times (get_y s))) in *.
+    set (g := fun h_ => c + h_ - i0).
+    assert (Hg : sorted_lt (map g fh)) by (apply sorted_lt_map_shift; exact Hs).
+    assert (Hin' : In (g h) (map g fh)) by (apply in_map; exact Hin).
+    pose proof (sorted_lt_first_min _ _ Hg Hin') as Hlo.
+    pose proof (sorted_lt_last_max _ _ Hg Hin') as Hhi.
+    unfold at_time. rewrite Hi. fold i0.
+    replace (c + h) with (i0 + g h) by (unfold g; lia).
+    rewrite lookup_labelled; [cbv beta iota; f_equal; lia|].
+    apply zrange1_in. lia.
+  Qed.
+End StatsModels.
